@@ -37,6 +37,15 @@ def split_top(s, sep=','):
     if t: out.append(t)
     return out
 
+def split_const_head(rest, eq):
+    """`NAME: TYPE<eq>VALUE` -> (NAME, TYPE, VALUE); NAME may itself contain `: ` (impl spans `file:l:c: l:c`):
+    the separator is the last `: ` before the first occurrence of <eq>"""
+    k = rest.find(eq)
+    if k < 0: return None
+    j = rest.rfind(': ', 0, k)
+    if j < 0: return None
+    return rest[:j], rest[j+2:k], rest[k+len(eq):]
+
 def parse_mir(text):
     fns = {}
     consts = {}
@@ -49,8 +58,8 @@ def parse_mir(text):
         kind = m.group(1); rest = m.group(2)
         if kind in ('const','static') and not rest.rstrip().endswith('{'):
             # const NAME: TYPE = const VALUE;
-            mm = re.match(r'^(.*?): (.*) = const (.*);$', rest)
-            if mm: consts[mm.group(1)] = ('lit', mm.group(3), mm.group(2))
+            mm = split_const_head(rest, ' = const ')
+            if mm and mm[2].endswith(';'): consts[mm[0]] = ('lit', mm[2][:-1], mm[1])
             i+=1; continue
         # body item
         if kind=='fn':
@@ -61,8 +70,8 @@ def parse_mir(text):
                 if am: f.args.append(int(am.group(1))); f.types[int(am.group(1))]=am.group(2)
             f.types[0]=mm.group(3)
         else:
-            mm = re.match(r'^(.*?): (.*) = \{$', rest)
-            name = mm.group(1); f = Fn(name, rest); f.types[0]=mm.group(2)
+            mm = split_const_head(rest, ' = {')
+            name = mm[0]; f = Fn(name, rest); f.types[0]=mm[1]
         i+=1
         cur=None
         while i<n and lines[i] != '}':
